@@ -74,7 +74,7 @@ def _tables(job):
 
 FW = {'AE': 'f1', 'AK': 'f2', 'As': 'f3'}
 HEADER = ['label', 'f1', 'f2', 'f3']
-TOKVALS = ['x', '12', 'a_b']
+TOKVALS = ['x', '12', 'a\u00a0b']   # the third token contains a no-break space (not a token separator)
 LABELS = [('1', '1'), ('-1 0.5', '-1'), ("0 2 'tag", '0')]
 
 
@@ -207,15 +207,14 @@ def _nsmaps(_):
 
 # ---------------- field-count validity in the streaming loop ---------------------------------------
 
-def stream_rows(source, header, lines, d):
+def stream_rows(source, header, lines, d, no_final_newline=False):
     """Run the real streaming loop with the batch scorer replaced by a recorder; returns (rows entering batches, invalid count)."""
     from outrank import core_ranking as cr
     from outrank.core_utils import BatchRankingSummary
     path = os.path.join(d, 'data.csv')
     with open(path, 'w', encoding='utf-8', newline='') as f:
-        f.write(lines[0])
-        for ln in lines[1:]:
-            f.write(ln)
+        text = ''.join(lines)
+        f.write(text[:-1] if (no_final_newline and text.endswith('\n')) else text)
     rec = []
 
     def recorder(line_tmp_storage, *a, **k):
@@ -277,6 +276,13 @@ def _validity(job):
                                 st.violation(case, f'streaming loop raised {res}', {'kind': 'exception', 'source': 'stream-' + source})
                                 continue
                             rows, inv = res
+                            if delta == 0:
+                                # the same file without a final line terminator, the candidate line last
+                                ok2, res2 = safe(stream_rows, source, header, [lines[0], lines[2], lines[1]], d, True)
+                                st.count('evaluations')
+                                if not ok2 or res2 != ([good, cand], 0):
+                                    st.violation(dict(case, no_final_newline=True), f'{source}: file without a final newline, last line fields {cand!r}: rows entering batches {res2!r}, expected {[good, cand]!r}',
+                                                 {'kind': 'validity_no_final_newline', 'source': source})
                             exp_rows = ([cand] if delta == 0 else []) + [good]
                             exp_inv = 0 if delta == 0 else 1
                             if rows != exp_rows or inv != exp_inv:
